@@ -775,3 +775,148 @@ Proof.
     destruct (Nat.eqb_spec (Nat.min ntracked maxreq) 0); [lia | reflexivity].
   - intros ->. destruct (Nat.eqb_spec maxreq 0); reflexivity.
 Qed.
+
+(** * 7. answers with their own arrival time (one clock reading per Verify call),
+      streams of frames *)
+
+Lemma head_frame_cons r rest : head_frame (r :: rest) = r.
+Proof. reflexivity. Qed.
+
+Lemma head_frame_nil : head_frame [] = RFail.
+Proof. reflexivity. Qed.
+
+(** only what sendMessage reads (one frame) matters *)
+Lemma head_frame_read frames : head_frame (read_frames 1 frames) = head_frame frames.
+Proof. destruct frames as [|r rest]; reflexivity. Qed.
+
+Section timed.
+Variables (drift : Z) (tv : hdr -> hdr -> tvres) (want : option N) (t : hdr).
+
+(** the untimed model is the special case "every answer is judged at the same instant" *)
+Lemma Head_is_HeadT now n resps :
+  Head now drift tv want t n resps = HeadT drift tv want t n (map (pair now) resps).
+Proof. unfold Head, HeadT. rewrite map_map. reflexivity. Qed.
+
+Lemma HeadF_first_frame_only n arr :
+  HeadF drift tv want t n arr =
+  HeadF drift tv want t n (map (fun x => (fst x, read_frames 1 (snd x))) arr).
+Proof.
+  unfold HeadF. rewrite map_map. f_equal. apply map_ext. intros [now fr]. cbn [fst snd].
+  now rewrite head_frame_read.
+Qed.
+
+Lemma in_map_answer_at h e resps : In (AHdr h e) (map (answer_at drift tv want t) resps) ->
+  exists now, In (now, RGot h) resps /\ answer now drift tv want t (RGot h) = AHdr h e.
+Proof.
+  intros Hin. apply in_map_iff in Hin as ([now r] & Ha & Hin). unfold answer_at in Ha. cbn [fst snd] in Ha.
+  pose proof (answer_AHdr now drift tv want t r h e Ha) as (-> & _). eauto.
+Qed.
+
+(** the clock can only turn a verdict into the (hard) from-future failure: two
+    readings at which the header does not hard-fail give the same verdict *)
+Lemma verify_not_hard_time_indep now1 now2 h :
+  (forall v, Verify now1 drift tv t h = Some v -> ve_soft v = true) ->
+  (forall v, Verify now2 drift tv t h = Some v -> ve_soft v = true) ->
+  Verify now1 drift tv t h = Verify now2 drift tv t h.
+Proof.
+  unfold Verify.
+  destruct (verify_mand now1 drift t h) as [s1|]; [intros H1 _; specialize (H1 _ eq_refl); discriminate|].
+  destruct (verify_mand now2 drift t h) as [s2|]; [intros _ H2; specialize (H2 _ eq_refl); discriminate|].
+  reflexivity.
+Qed.
+
+Lemma answer_time_indep now1 now2 h e1 e2 :
+  answer now1 drift tv want t (RGot h) = AHdr h e1 ->
+  answer now2 drift tv want t (RGot h) = AHdr h e2 -> e1 = e2.
+Proof.
+  intros A1 A2.
+  apply answer_AHdr in A1 as (_ & _ & _ & N1 & V1). apply answer_AHdr in A2 as (_ & _ & _ & N2 & V2).
+  destruct (h_nil t) eqn:Ht; [rewrite (N1 eq_refl), (N2 eq_refl); reflexivity|].
+  specialize (V1 eq_refl). specialize (V2 eq_refl).
+  assert (E : Verify now1 drift tv t h = Verify now2 drift tv t h).
+  { apply verify_not_hard_time_indep.
+    - intros v Hv. destruct e1 as [w|]; [destruct V1 as (Hw & Hs); congruence | congruence].
+    - intros v Hv. destruct e2 as [w|]; [destruct V2 as (Hw & Hs); congruence | congruence]. }
+  destruct e1 as [w1|], e2 as [w2|]; try destruct V1 as (V1 & _); try destruct V2 as (V2 & _); congruence.
+Qed.
+
+Lemma answers_consistent_t resps : hash_inj (map snd resps) ->
+  consistent (map (answer_at drift tv want t) resps).
+Proof.
+  intros Hi h e h' e' H1 H2 _ _ Eid.
+  apply in_map_answer_at in H1 as (n1 & H1 & A1). apply in_map_answer_at in H2 as (n2 & H2 & A2).
+  assert (Eh : h = h').
+  { apply Hi; auto; apply in_map_iff; [exists (n1, RGot h) | exists (n2, RGot h')]; auto. }
+  subst h'. split; [reflexivity|]. exact (answer_time_indep _ _ _ _ _ A1 A2).
+Qed.
+
+(** what Head may return, each answer judged at its own arrival time *)
+Theorem head_returned_sound_t n (resps : list (Z * resp)) h e :
+  length resps <= n -> In (OHead h e) (snd (HeadT drift tv want t n resps)) ->
+  h_nil h = false /\ h_ok h = true /\ chain_ok want h = true /\
+  (exists now, In (now, RGot h) resps /\
+     (h_nil t = false -> forall v, Verify now drift tv t h = Some v -> ve_soft v = true)) /\
+  (h_nil t = true -> e = None) /\
+  (h_nil t = false ->
+   (e = None -> exists now, In (now, RGot h) resps /\ Verify now drift tv t h = None) /\
+   (forall v, e = Some v -> ve_soft v = true /\
+      exists now h', In (now, RGot h') resps /\ h_id h' = h_id h /\ Verify now drift tv t h' = Some v) /\
+   (hash_inj (map snd resps) ->
+      (forall v, e = Some v -> exists now, In (now, RGot h) resps /\ Verify now drift tv t h = Some v) /\
+      (forall now, In (now, RGot h) resps ->
+         (exists v, Verify now drift tv t h = Some v /\ ve_soft v = false) \/ Verify now drift tv t h = e))).
+Proof.
+  intros Hlen Hin. unfold HeadT in Hin. fold (head_fold n (map (answer_at drift tv want t) resps)) in Hin.
+  apply head_fold_returned in Hin as (Hnn & (e0 & Hin0) & Hnone & Hsome); [|now rewrite map_length].
+  apply in_map_answer_at in Hin0 as (now0 & Hr & Ha).
+  pose proof (answer_AHdr _ _ _ _ _ _ _ _ Ha) as (_ & Hok & Hch & Ht1 & Ht0).
+  split; [exact Hnn|]. split; [exact Hok|]. split; [exact Hch|]. split; [|split].
+  - exists now0. split; [exact Hr|]. intros Ht v Hv. specialize (Ht0 Ht).
+    destruct e0 as [w|]; [destruct Ht0 as (Hw & Hs); congruence | congruence].
+  - intros Ht. destruct e as [v|]; [|reflexivity]. exfalso.
+    destruct (Hsome v eq_refl) as (h' & Hin' & _ & _). apply in_map_answer_at in Hin' as (now' & _ & Ha').
+    apply answer_AHdr in Ha' as (_ & _ & _ & Hx & _). specialize (Hx Ht). discriminate.
+  - intros Ht. split; [|split].
+    + intros E. specialize (Hnone E). apply in_map_answer_at in Hnone as (now' & Hr' & Ha').
+      apply answer_AHdr in Ha' as (_ & _ & _ & _ & Hx). exists now'. split; [exact Hr' | exact (Hx Ht)].
+    + intros v E. destruct (Hsome v E) as (h' & Hin' & _ & Eid). apply in_map_answer_at in Hin' as (now' & Hr' & Ha').
+      apply answer_AHdr in Ha' as (_ & _ & _ & _ & Hx). specialize (Hx Ht). cbn in Hx. destruct Hx as (Hv & Hs).
+      split; [exact Hs|]. exists now', h'. repeat split; auto.
+    + intros Hi.
+      assert (Hown : forall v, e = Some v ->
+                exists now, In (now, RGot h) resps /\ answer now drift tv want t (RGot h) = AHdr h (Some v)).
+      { intros v E. destruct (Hsome v E) as (h' & Hin' & _ & Eid).
+        apply in_map_answer_at in Hin' as (now' & Hr' & Ha').
+        assert (h' = h) as -> by (apply Hi; auto; apply in_map_iff; [exists (now', RGot h') | exists (now0, RGot h)]; auto).
+        eauto. }
+      split.
+      * intros v E. destruct (Hown v E) as (now' & Hr' & Ha').
+        apply answer_AHdr in Ha' as (_ & _ & _ & _ & Hx). exists now'. split; [exact Hr' | exact (proj1 (Hx Ht))].
+      * intros now Hnow.
+        assert (He : exists now', answer now' drift tv want t (RGot h) = AHdr h e).
+        { destruct e as [v|].
+          - destruct (Hown v eq_refl) as (now' & _ & Ha'). eauto.
+          - specialize (Hnone eq_refl). apply in_map_answer_at in Hnone as (now' & _ & Ha'). eauto. }
+        destruct He as (now' & He).
+        destruct (answer now drift tv want t (RGot h)) as [|h1 e1] eqn:Ea.
+        -- left. unfold answer, request in Ea. rewrite Hok, Hch, Ht in Ea. cbn [andb] in Ea.
+           destruct (Verify now drift tv t h) as [v|]; [|discriminate].
+           destruct (ve_soft v) eqn:Hs; [discriminate|]. eauto.
+        -- right. pose proof (answer_AHdr _ _ _ _ _ _ _ _ Ea) as (Eh & _). injection Eh as <-.
+           pose proof (answer_time_indep _ _ _ _ _ Ea He) as ->.
+           apply answer_AHdr in Ea as (_ & _ & _ & _ & Hx). specialize (Hx Ht).
+           destruct e as [v|]; [exact (proj1 Hx) | exact Hx].
+Qed.
+
+(** permutation closure with timed answers *)
+Theorem head_permutation_closed_t n resps resps' :
+  Permutation resps resps' -> length resps <= n -> hash_inj (map snd resps) ->
+  forall o, In o (snd (HeadT drift tv want t n resps)) <-> In o (snd (HeadT drift tv want t n resps')).
+Proof.
+  intros Hp Hlen Hi o. unfold HeadT. apply (permutation_closed n).
+  - now apply Permutation_map.
+  - now rewrite map_length.
+  - now apply answers_consistent_t.
+Qed.
+
+End timed.
